@@ -1,5 +1,742 @@
-"""C20 — wrapper: generator and oracle of c20_oracle."""
+"""C20 — tag values set through the API are written and read back unchanged.
+
+Two kinds of cases:
+
+ single assignment   (the cases of c20_oracle.py, unchanged: one value, one tag of a fresh line, declared datatype or none,
+                     set / attribute, 3 records x levels 0-3; see the docstring there for the two halves of the verdict and
+                     for what is NOT CHECKED);
+
+ sequences           (`"seq"` in the case; this file) several steps on ONE line and ONE tag name, on one of the 3 records at
+                     levels 0-3.  The line may start with the tag already written in its text (`init`).  Steps:
+                       set v (set / attribute) | delete | write (str + field_to_s) | validate | get |
+                       edit: the list object returned by line.get(tag) is modified in place (append, extend, +=, insert,
+                             pop, remove, del a[i], del a[i:], a[i] = x, a[i:i+1] = [..], sort, reverse, clear, *= 2).
+                     A model walks along: (tag present?, datatype, value).
+                       - a set on an absent tag (never there, or removed by delete()) creates a NEW tag: the documented
+                         default datatype of the value applies, whatever the tag held before it was deleted;
+                       - a set on a present tag keeps the datatype of the tag (natural pairs of c20_oracle.NATURAL only);
+                       - an edit of a B array keeps the datatype B; the value is the list as it is after the edit
+                         (only judged when line.get(tag) shows the edited contents, i.e. the line shares the object).
+                     After a state-changing step (every one of them - mode "all" - or only the last - mode "last", so that
+                     explicit write / validate / get steps are the only earlier readers of the value) the state is judged
+                     exactly like a single assignment: representable -> datatype, validate(), grammar of field_to_s,
+                     str(line) carries that tag, smallest integer subtype FOR THE ELEMENTS THE ARRAY HAS NOW, re-parsed
+                     value and datatype equal; unrepresentable (mixed / out-of-range / empty / non-finite array after
+                     an edit, value foreign to the kept datatype) -> refused or reported by validate(), and at level >= 2
+                     not written.  The walk stops at the first state that is not representable (judged, then stop) or
+                     debatable (stop without verdict).
+                     Not judged for sequences: that delete() removed the tag (a tag still listed in `tagnames` after
+                     delete() ends the walk without verdict); a declared datatype (set_datatype) surviving delete();
+                     set(tag, None); edits of J lists; NaN elements; whether the line shares the list object at all.
+
+Failure signatures of sequences carry the label `seq.<datatype>.<kind>.<situation>` (situation: new / recreated / overwrite /
+edit-<method>), e.g. `wrong-datatype[seq.i.int.recreated]`, `subtype-not-smallest[seq.B.ints.edit-pop]`.  Verdicts on a tag that
+was created again after a delete() and is then overwritten or edited (situation `...-recreated`) have the signature prefix
+`recreated-tag-changed/`: on the pinned tree a tag created again through ATTRIBUTE assignment (`line.xx = v` after
+`line.delete("xx")`) does not get its datatype recorded (the setter defined by the first creation goes straight to
+_set_existing_field), so that until somebody reads the datatype a later assignment / edit silently changes it
+(`xx=1.5; delete; xx=12; xx="b"` -> `xx:Z:b`, validate() passes; without the delete, or with `set("xx", 12)`, or with a
+get_datatype("xx") in between: datatype i, the string is reported).
+"""
+import json, math, struct
+from harness import lib
+from harness.props import _misc as M
 from harness.props.c20_oracle import *  # noqa
 from harness.props import c20_oracle as _o
+
 ID = "C20"
-RULE = getattr(_o, "RULE", "")
+RULE = (getattr(_o, "RULE", "") +
+        " Sequences (every 4th random case + ~140 fixed ones): steps set / delete / write / validate / get / in-place edit "
+        "(append, extend, +=, insert, pop, remove, del, item and slice assignment, sort, reverse, clear, *=) on one tag of "
+        "one line (tag new, written in the parsed text, or deleted and created again with a value of another kind: all "
+        "ordered pairs of i, f, Z, J, B-int, B-float, H), arrays edited around the subtype boundaries / to mixed / empty "
+        "contents after the line was written or validated. Non-trivial: at least one state of the walk is judged "
+        "(representable or not).")
+
+SEQ_EVERY = 4          # random case i is a sequence when i % SEQ_EVERY == SEQ_EVERY - 1 (the others are exactly those of c20_oracle)
+
+
+# ---------------------------------------------------------------------------------------------------- generators
+def _num(s):
+    try:
+        return int(s)
+    except ValueError:
+        return float(s)
+
+
+def _finite_float(rng):
+    for _ in range(20):
+        f = struct.unpack("<d", struct.pack("<Q", rng.getrandbits(64)))[0]
+        if math.isfinite(f):
+            return f
+    return 1.5
+
+
+def _int_elem(rng, lo=-2 ** 31, hi=2 ** 32 - 1):
+    for _ in range(20):
+        x = rng.pick(_o.BOUNDS) + rng.pick([0, 0, 1, -1])
+        if lo <= x <= hi:
+            return x
+    return 1
+
+
+def _int_array(rng):
+    """elements of a representable integer array, around the subtype boundaries"""
+    n = rng.pick([1, 2, 3, 5])
+    if rng.chance(0.5):
+        a = [_int_elem(rng, 0, 2 ** 32 - 1) for _ in range(n)]
+    else:
+        a = [_int_elem(rng, -2 ** 31, 2 ** 31 - 1) for _ in range(n)]
+    if rng.chance(0.4):            # small arrays leave room to grow
+        a = [rng.pick([0, 1, 2, 3, 100, 127, 200, 255]) for _ in range(n)]
+    return a
+
+
+def _nice_value(rng, kind=None):
+    """a value spec that is representable under its default datatype (i, f, Z, J, B, B, H)"""
+    kind = kind or rng.pick(["int", "float", "str", "json", "ints", "ints", "floats", "bytes"])
+    if kind == "int":
+        e = rng.pick([0, 3, 7, 8, 15, 16, 31, 32, 40])
+        return {"t": "int", "v": str(rng.pick([1, -1]) * (2 ** e + rng.pick([-1, 0, 1])))}
+    if kind == "float":
+        return {"t": "float", "v": repr(rng.pick([1.5, -2.25, 0.1, 3.0, 1e16, 5e-324, _finite_float(rng)]))}
+    if kind == "str":
+        alpha = rng.pick(["abc XYZ09~!", "ab", "".join(chr(c) for c in range(32, 127)), "0123456789", "0123456789ABCDEF"])
+        return {"t": "str", "v": "".join(rng.pick(alpha) for _ in range(rng.pick([1, 2, 3, 8])))}
+    if kind == "json":
+        j = rng.pick([{"a": 1}, [1, "a"], {"k": None, "l": [1, 2]}, ["a", "b"], [1, 2.5], [[1]], {}, [None]])
+        return {"t": "json", "v": j}
+    if kind == "ints":
+        return {"t": rng.pick(["ilist", "inarr", "inarr"]), "v": [str(x) for x in _int_array(rng)]}
+    if kind == "floats":
+        return {"t": rng.pick(["flist", "fnarr", "fnarr"]), "v": [repr(_finite_float(rng)) for _ in range(rng.pick([1, 2, 3]))]}
+    return {"t": "bytearr", "v": "".join("%02x" % rng.randrange(256) for _ in range(rng.pick([1, 2, 5])))}
+
+
+def _rnd_elem(rng, floats):
+    k = rng.random()
+    if floats:
+        return repr(_finite_float(rng)) if k < 0.85 else (rng.pick(["1", "300"]) if k < 0.95 else "inf")
+    if k < 0.86:
+        return str(_int_elem(rng, -2 ** 31 - 1, 2 ** 32))
+    return rng.pick(["2.5", "2.5", "1.0", "inf"]) if k < 0.96 else rng.pick([str(10 ** 30), str(-2 ** 40)])
+
+
+def _rnd_edit(rng, floats):
+    x = lambda: _rnd_elem(rng, floats)
+    k = rng.randrange(8)
+    m = rng.pick(["append", "append", "extend", "iadd", "insert", "pop", "pop", "popfirst", "remove", "delitem", "delslice", "setitem",
+                  "setslice", "sort", "reverse", "clear", "imul"])
+    if m in ("append",):
+        return {"op": "edit", "m": m, "x": x()}
+    if m in ("extend", "iadd"):
+        return {"op": "edit", "m": m, "xs": [x() for _ in range(rng.pick([1, 2, 2, 3]))]}
+    if m in ("insert", "setitem"):
+        return {"op": "edit", "m": m, "k": k, "x": x()}
+    if m == "setslice":
+        return {"op": "edit", "m": m, "k": k, "xs": [x() for _ in range(rng.pick([0, 1, 2]))]}
+    if m in ("remove", "delitem", "delslice"):
+        return {"op": "edit", "m": m, "k": k}
+    return {"op": "edit", "m": m}
+
+
+def _primers(rng, p=0.6):
+    out = []
+    while rng.chance(p) and len(out) < 3:
+        out.append({"op": rng.pick(["write", "write", "validate", "get"])})
+    return out
+
+
+def _set(rng, val):
+    return {"op": "set", "value": val, "how": rng.pick(["set", "attr"])}
+
+
+KINDS = ["int", "float", "str", "json", "ints", "floats", "bytes"]
+
+
+def gen_seq(rng):
+    """one random sequence case"""
+    case = {"seq": [], "tag": rng.pick(_o.TAGNAMES), "rec": rng.randrange(len(_o.CTX)), "mode": rng.pick(["all", "all", "last"]),
+            "init": None}
+    S = case["seq"]
+    flavour = rng.random()
+    if flavour < 0.4:
+        # a tag is deleted and created again with a value of another (sometimes the same) kind
+        k1 = rng.pick(KINDS)
+        k2 = rng.pick([k for k in KINDS if k != k1] * 4 + [k1])
+        v1 = _nice_value(rng, k1)
+        if rng.chance(0.35):
+            case["init"] = v1
+        else:
+            S.append(_set(rng, v1))
+        S.extend(_primers(rng))
+        S.append({"op": "delete"})
+        S.extend(_primers(rng, 0.2))
+        v2 = _nice_value(rng, k2) if rng.chance(0.85) else _o.gen_case(rng, "quick", 0)["value"]
+        S.append(_set(rng, v2))
+        if rng.chance(0.25):       # ... and once more
+            S.extend(_primers(rng, 0.3))
+            S.append({"op": "delete"})
+            S.append(_set(rng, _nice_value(rng)))
+        elif rng.chance(0.2):      # ... or overwritten: the (new) datatype is kept
+            S.append(_set(rng, _nice_value(rng, k2)))
+    elif flavour < 0.9:
+        # an array is edited in place after it was written / validated
+        floats = rng.chance(0.2)
+        v1 = _nice_value(rng, "floats" if floats else "ints")
+        if rng.chance(0.3):
+            case["init"] = v1
+        else:
+            S.append(_set(rng, v1))
+        for _ in range(rng.pick([1, 1, 2, 3])):
+            S.extend(_primers(rng, 0.7))
+            S.append(_rnd_edit(rng, floats))
+        if rng.chance(0.15):
+            S.append({"op": "delete"})
+            S.append(_set(rng, _nice_value(rng)))
+    else:
+        # free mixture
+        if rng.chance(0.3):
+            case["init"] = _nice_value(rng)
+        for _ in range(rng.pick([2, 3, 4, 6])):
+            k = rng.random()
+            if k < 0.4:
+                S.append(_set(rng, _nice_value(rng) if rng.chance(0.8) else _o.gen_case(rng, "quick", 0)["value"]))
+            elif k < 0.55:
+                S.append({"op": "delete"})
+            elif k < 0.75:
+                S.append({"op": rng.pick(["write", "validate", "get"])})
+            else:
+                S.append(_rnd_edit(rng, rng.chance(0.2)))
+    return case
+
+
+def gen_case(rng, tier, i):
+    if i % SEQ_EVERY == SEQ_EVERY - 1:
+        return gen_seq(rng)
+    return _o.gen_case(rng, tier, i)
+
+
+def _fixed_sequences():
+    out = []
+    rep = {"int": {"t": "int", "v": "3"}, "float": {"t": "float", "v": "1.5"}, "str": {"t": "str", "v": "abc"},
+           "json": {"t": "json", "v": [1, "a"]}, "ints": {"t": "inarr", "v": ["1", "2", "300"]},
+           "floats": {"t": "flist", "v": ["1.5", "-2.0"]}, "bytes": {"t": "bytearr", "v": "00ff10"}}
+    n = 0
+    for k1 in KINDS:
+        for k2 in KINDS:
+            if k1 == k2:
+                continue
+            n += 1
+            seq = [{"op": "set", "value": rep[k1], "how": ["set", "attr"][n % 2]}]
+            if n % 3:
+                seq.append({"op": "write"})
+            seq += [{"op": "delete"}, {"op": "set", "value": rep[k2], "how": ["attr", "set"][n % 2]}]
+            out.append({"seq": seq, "tag": _o.TAGNAMES[n % 4], "rec": n % 3, "mode": ["all", "last"][n % 2], "init": None})
+            if n % 2:
+                out.append({"seq": seq[1:], "tag": _o.TAGNAMES[n % 4], "rec": (n + 1) % 3, "mode": "all", "init": rep[k1]})
+    E = lambda m, **kw: dict({"op": "edit", "m": m}, **kw)
+    W, V, G = {"op": "write"}, {"op": "validate"}, {"op": "get"}
+    arr = lambda t, *xs: {"t": t, "v": [str(x) for x in xs]}
+    edits = [
+        (arr("inarr", 1, 2, 3), [W, E("append", x="300"), E("append", x="-1")]),
+        (arr("inarr", 1, 70000), [W, E("pop")]),
+        (arr("inarr", 1, 2), [V, E("extend", xs=["5", "-5"])]),
+        (arr("inarr", 1, 2), [V, E("append", x="2.5")]),
+        (arr("inarr", 1, 2), [G, E("iadd", xs=["65536"])]),
+        (arr("inarr", 255, 1), [W, E("insert", k=0, x="256")]),
+        (arr("inarr", -1, 5), [W, E("remove", k=0)]),
+        (arr("inarr", 1, 2 ** 32 - 1), [W, E("delitem", k=1)]),
+        (arr("inarr", 1, 2, 65535), [V, E("delslice", k=1)]),
+        (arr("inarr", 3, 2, -200), [W, E("popfirst"), W, E("popfirst"), E("sort")]),
+        (arr("inarr", 1, 2), [W, E("clear")]),
+        (arr("inarr", 1, 2), [W, E("append", x=str(2 ** 32))]),
+        (arr("inarr", 1, 2), [W, E("setitem", k=0, x="-70000")]),
+        (arr("inarr", 1, 2), [W, E("setslice", k=0, xs=["-1", "300"])]),
+        (arr("inarr", 200), [W, E("imul"), E("reverse")]),
+        (arr("ilist", 1, 2, 3), [W, E("append", x="300")]),
+        (arr("ilist", 1, 70000), [V, E("pop")]),
+        (arr("fnarr", 1.5, 2.5), [W, E("append", x="1")]),
+        (arr("fnarr", 1.5, 2.5), [V, E("append", x="inf")]),
+        (arr("fnarr", 1.5), [W, E("pop"), E("append", x="7")]),
+    ]
+    for n, (v, steps) in enumerate(edits):
+        for mode in ("all", "last"):
+            out.append({"seq": [{"op": "set", "value": v, "how": "set"}] + steps, "tag": _o.TAGNAMES[n % 4], "rec": n % 3, "mode": mode,
+                        "init": None})
+        out.append({"seq": steps, "tag": _o.TAGNAMES[(n + 1) % 4], "rec": (n + 1) % 3, "mode": "last", "init": v})
+    # a tag created again after delete() is then overwritten / edited: it keeps the datatype it was created with
+    D = {"op": "delete"}
+    S = lambda how, v: {"op": "set", "value": v, "how": how}
+    again = [
+        [rep["float"], D, rep["int"], rep["str"]],                    # i tag, then a string: reported
+        [rep["int"], D, rep["float"], {"t": "int", "v": "3"}],        # f tag, then 3: xx:f:3
+        [rep["str"], D, arr("inarr", 1, 2), E("append", x="2.5")],    # B tag, mixed after the edit: reported
+        [rep["json"], D, arr("ilist", 1, 2), E("append", x="300")],   # B tag, S after the edit
+    ]
+    n = 0
+    for steps in again:
+        for how1 in ("attr", "set"):
+            for how2 in ("attr", "set"):
+                n += 1
+                seq = [S("set", steps[0]), D, S(how1, steps[2]), steps[3] if "op" in steps[3] else S(how2, steps[3])]
+                out.append({"seq": seq, "tag": _o.TAGNAMES[n % 4], "rec": n % 3, "mode": "last", "init": None})
+    return out
+
+
+SEQ_FIXED = _fixed_sequences()
+
+
+def n_exhaustive(tier):
+    return _o.n_exhaustive(tier) + len(SEQ_FIXED)
+
+
+def exhaustive_case(i, tier):
+    n0 = _o.n_exhaustive(tier)
+    if i < n0:
+        return _o.exhaustive_case(i, tier)
+    return SEQ_FIXED[i - n0]
+
+
+# ---------------------------------------------------------------------------------------------------- model of a sequence
+KIND_LABEL = {"ilist": "ints", "inarr": "ints", "flist": "floats", "fnarr": "floats", "emptylist": "empty", "emptynarr": "empty",
+              "hexstr": "str"}
+
+
+def _is_int(x):
+    return isinstance(x, int) and not isinstance(x, bool)
+
+
+def b_representable(lst):
+    """a list as the value of a B tag: non-empty, all integers within one subtype or all finite floats"""
+    if len(lst) == 0:
+        return False
+    if all(_is_int(x) for x in lst):
+        return _o.int_subtype(lst) is not None
+    if all(isinstance(x, float) for x in lst):
+        return all(math.isfinite(x) for x in lst)
+    return False
+
+
+def init_text(spec, v, dt):
+    """written form of the initial tag value (the harness writes it, gfapy parses it); None = not usable as init"""
+    if dt == "i":
+        return str(v)
+    if dt == "f":
+        s = repr(v)
+        return s if M.RE_FLOAT.match(s) else None
+    if dt == "Z":
+        return v
+    if dt == "J":
+        return json.dumps(v)
+    if dt == "H":
+        return bytes(v).hex().upper()
+    if dt == "B":
+        if all(_is_int(x) for x in v):
+            return ",".join([_o.int_subtype(list(v))] + [str(x) for x in v])
+        s = ",".join(["f"] + [repr(x) for x in v])
+        return s if M.tag_value("B", s) is True else None
+    return None
+
+
+def apply_edit(lst, st):
+    """apply the edit step to a list (the model's or gfapy's); returns False when the step does not apply (index into an
+    empty list): it is then skipped on both sides"""
+    m, n = st["m"], len(lst)
+    k = st.get("k", 0)
+    if m == "append":
+        lst.append(_num(st["x"]))
+    elif m == "extend":
+        lst.extend([_num(x) for x in st["xs"]])
+    elif m == "iadd":
+        r = lst.__iadd__([_num(x) for x in st["xs"]])
+        assert r is lst
+    elif m == "imul":
+        r = lst.__imul__(2)
+        assert r is lst
+    elif m == "insert":
+        lst.insert(k % (n + 1), _num(st["x"]))
+    elif m == "sort":
+        lst.sort()
+    elif m == "reverse":
+        lst.reverse()
+    elif m == "clear":
+        lst.clear()
+    elif n == 0:
+        return False
+    elif m == "pop":
+        lst.pop()
+    elif m == "popfirst":
+        lst.pop(0)
+    elif m == "remove":
+        lst.remove(list(lst)[k % n])
+    elif m == "delitem":
+        del lst[k % n]
+    elif m == "delslice":
+        del lst[k % n:]
+    elif m == "setitem":
+        lst[k % n] = _num(st["x"])
+    elif m == "setslice":
+        lst[k % n:k % n + 1] = [_num(x) for x in st["xs"]]
+    else:
+        raise AssertionError(m)
+    return True
+
+
+class State:
+    def __init__(self):
+        self.present = False
+        self.dt = None
+        self.spec = None      # spec of the value last assigned
+        self.v = None         # the object given to gfapy (or built for init)
+        self.mv = None        # model of the current value: a plain list for lists, else the value itself
+        self.was = False      # the tag existed before on this line (and was deleted)
+        self.recreated = False  # the present tag was created after a delete() of the same tag name
+
+
+def plan(case):
+    """walk of the model, without a line: list of (step, verdict) with verdict in
+         None                              nothing to judge (reader steps, delete, skipped edit)
+         ("rep"|"unrep", dt, label, model value, spec or None)
+         ("stop",)                         debatable: the walk ends here without verdict
+       preceded by the initial state (text or None)."""
+    gfapy = lib.import_gfapy()
+    st = State()
+    init = None
+    if case.get("init"):
+        spec = case["init"]
+        try:
+            v = _o.build_value(spec)
+            dt = _o.default_datatype(spec, v)
+            ok = dt is not None and _o.representable(dt, spec, v) is True
+        except gfapy.Error:
+            ok = False
+        text = init_text(spec, v, dt) if ok else None
+        if text is None:
+            return None, []
+        init = "%s:%s:%s" % (case["tag"], dt, text)
+        st.present, st.dt, st.spec, st.v, st.was = True, dt, spec, None, True
+        st.mv = list(v) if isinstance(v, list) and dt in ("B", "J") and not isinstance(v, gfapy.ByteArray) else v
+    out = []
+    for step in case["seq"]:
+        op = step["op"]
+        if op in ("write", "validate", "get"):
+            out.append((step, None))
+        elif op == "delete":
+            if st.present:
+                st.present, st.dt, st.v, st.mv, st.recreated = False, None, None, None, False
+            out.append((step, None))
+        elif op == "set":
+            spec = step["value"]
+            try:
+                v = _o.build_value(spec)
+            except gfapy.Error:
+                out.append((step, ("stop",)))
+                break
+            created = not st.present
+            if st.present:
+                dt, sit = st.dt, "overwrite" + ("-recreated" if st.recreated else "")
+            else:
+                dt, sit = _o.default_datatype(spec, v), ("recreated" if st.was else "new")
+            if dt is None:
+                out.append((step, ("stop",)))
+                break
+            rep = _o.representable(dt, spec, v)
+            if rep is None:
+                out.append((step, ("stop",)))
+                break
+            lab = "seq.%s.%s.%s" % (dt, KIND_LABEL.get(spec["t"], spec["t"]), sit)
+            mv = list(v) if isinstance(v, list) and not isinstance(v, gfapy.ByteArray) and dt == "B" else v
+            out.append((step, ("rep" if rep else "unrep", dt, lab, mv, spec, v)))
+            if not rep:
+                break
+            if created:
+                st.recreated = st.was
+            st.present, st.dt, st.spec, st.v, st.mv, st.was = True, dt, spec, v, mv, True
+        elif op == "edit":
+            if not st.present or st.dt != "B" or not isinstance(st.mv, list) or isinstance(st.mv, gfapy.ByteArray):
+                out.append((step, None))           # nothing to edit: the step is skipped
+                continue
+            mv = list(st.mv)
+            if not apply_edit(mv, step):
+                out.append((step, None))
+                continue
+            rep = b_representable(mv)
+            knd = "floats" if mv and all(isinstance(x, float) for x in mv) else ("ints" if mv and all(_is_int(x) for x in mv)
+                                                                                 else ("empty" if not mv else "mixed"))
+            lab = "seq.B.%s.edit-%s%s" % (knd, step["m"], "-recreated" if st.recreated else "")
+            out.append((step, ("rep" if rep else "unrep", "B", lab, mv, None, None)))
+            if not rep:
+                break
+            st.mv = mv
+        else:
+            raise AssertionError(op)
+    return init, out
+
+
+# ---------------------------------------------------------------------------------------------------- verdicts on a line
+def judge_rep(fail, line, tag, dt, v, ver):
+    """the round-trip half (same demands as c20_oracle.one)"""
+    gfapy = lib.import_gfapy()
+    try:
+        got_dt = line.get_datatype(tag)
+    except Exception as e:
+        fail("foreign-exception" if not isinstance(e, gfapy.Error) else "representable-refused", "get_datatype raised %s" % e.__class__.__name__)
+        return False
+    if got_dt != dt:
+        fail("wrong-datatype", "get_datatype gives %r, expected %r" % (got_dt, dt))
+        return False
+    try:
+        line.validate()
+    except gfapy.Error as e:
+        fail("representable-fails-validate", "validate() raised %s" % e.__class__.__name__)
+    except Exception as e:
+        fail("foreign-exception", "validate() raised %s@%s" % (e.__class__.__name__, M.innermost_gfapy_frame(e)))
+    try:
+        text = line.field_to_s(tag, tag=True)
+        whole = str(line)
+    except gfapy.Error as e:
+        fail("representable-refused", "writing raised %s" % e.__class__.__name__)
+        return False
+    except Exception as e:
+        fail("foreign-exception", "writing raised %s@%s" % (e.__class__.__name__, M.innermost_gfapy_frame(e)))
+        return False
+    pre = "%s:%s:" % (tag, dt)
+    if not text.startswith(pre) or M.tag_value(dt, text[len(pre):]) is not True:
+        fail("malformed-text-written", "field_to_s gives %r" % text)
+        return False
+    if text not in whole.split("\t"):
+        fail("str-differs-from-field_to_s", "str(line) is %r, field_to_s %r" % (whole, text))
+        return False
+    ok = True
+    if dt == "B" and not isinstance(v, str) and all(isinstance(x, int) for x in v):
+        want = _o.int_subtype(list(v))
+        if text[len(pre)] != want:
+            fail("subtype-not-smallest", "written %r, smallest subtype is %r" % (text, want))
+            ok = False
+    try:
+        back = gfapy.Line(whole, vlevel=1, version=ver)
+        bv = back.get(tag)
+        bdt = back.get_datatype(tag)
+    except gfapy.Error as e:
+        fail("written-line-does-not-parse", "%r: %s" % (whole, e.__class__.__name__))
+        return False
+    except Exception as e:
+        fail("foreign-exception", "re-parsing %r raised %s@%s" % (whole, e.__class__.__name__, M.innermost_gfapy_frame(e)))
+        return False
+    if bdt != dt:
+        fail("datatype-changed-on-reparse", "%r reads back as %r" % (text, bdt))
+        ok = False
+    if _o.equal_back(dt, v, bv) is False:
+        fail("value-changed", "wrote %r, read back %r" % (text, bv))
+        ok = False
+    try:
+        own = line.get(tag)
+        if _o.equal_back(dt, v, own) is False:
+            fail("value-changed", "line.get gives %r, the value is %r" % (own, v))
+            ok = False
+    except gfapy.Error as e:
+        fail("representable-refused", "get raised %s" % e.__class__.__name__)
+        ok = False
+    except Exception as e:
+        fail("foreign-exception", "get raised %s@%s" % (e.__class__.__name__, M.innermost_gfapy_frame(e)))
+        ok = False
+    return ok
+
+
+def judge_unrep(fail, line, tag, dt, vlevel):
+    """the reporting half (same demands as c20_oracle.one)"""
+    gfapy = lib.import_gfapy()
+    reported = False
+    try:
+        line.validate()
+    except gfapy.Error:
+        reported = True
+    except Exception as e:
+        fail("foreign-exception", "validate() raised %s@%s" % (e.__class__.__name__, M.innermost_gfapy_frame(e)))
+        reported = True
+    if not reported:
+        fail("unrepresentable-not-reported-by-validate", "validate() passes")
+    if vlevel >= 2:
+        pre = "%s:" % tag
+        try:
+            text = line.field_to_s(tag, tag=True)
+            p = M.split_tag(text)
+            if p is None or p[1] not in "AifZJHB" or M.tag_value(p[1], p[2]) is not True or p[1] != dt:
+                fail("malformed-text-written", "field_to_s returns %r" % text)
+            else:
+                fail("unrepresentable-written", "field_to_s returns %r without an error" % text)
+        except gfapy.Error:
+            pass
+        except Exception as e:
+            fail("foreign-exception", "field_to_s raised %s@%s" % (e.__class__.__name__, M.innermost_gfapy_frame(e)))
+        try:
+            whole = str(line)
+            if "# INVALID" not in whole:
+                tg = [f for f in whole.split("\t")[1:] if f.startswith(pre)]
+                fail("malformed-text-written", "str(line) returns %r" % (tg or whole))
+        except gfapy.Error:
+            pass
+        except Exception as e:
+            fail("foreign-exception", "str(line) raised %s@%s" % (e.__class__.__name__, M.innermost_gfapy_frame(e)))
+
+
+def short_step(st):
+    op = st["op"]
+    if op == "set":
+        return "%s(%s)" % (st["how"], _o.short(st["value"]))
+    if op == "edit":
+        return "%s(%s)" % (st["m"], ",".join(str(st[k]) for k in ("k", "x", "xs") if k in st))
+    return op
+
+
+def run_seq(F, case, ver, base, vlevel):
+    gfapy = lib.import_gfapy()
+    tag = case["tag"]
+    init, steps = plan(case)
+    if not steps:
+        return
+    last_judged = max([i for i, (_, vd) in enumerate(steps) if vd is not None and vd[0] != "stop"] or [-1])
+    text0 = base + ("\t" + init if init else "")
+    done = []
+    lab = "seq"
+
+    def fail(sig, msg):
+        if lab.endswith("-recreated"):
+            sig = "recreated-tag-changed/" + sig         # defect family of the pinned tree: see the module docstring
+        F.append("%s[%s]: %s vlevel=%d tag=%s: %s%s: %s" % (sig, lab, base.split("\t")[0], vlevel, tag,
+                                                      ("line %r; " % text0) if init else "", " > ".join(done), msg))
+
+    try:
+        line = gfapy.Line(text0, vlevel=vlevel, version=ver)
+    except gfapy.Error:
+        return                               # the initial text is not the subject
+    for i, (step, vd) in enumerate(steps):
+        op = step["op"]
+        done.append(short_step(step))
+        if vd is not None and vd[0] == "stop":
+            return
+        if op in ("write", "validate", "get"):
+            # readers between the judged states: their outcome is judged by the state checks, here they only read
+            try:
+                if op == "write":
+                    str(line)
+                    if tag in line.tagnames:
+                        line.field_to_s(tag, tag=True)
+                elif op == "validate":
+                    line.validate()
+                else:
+                    line.get(tag)
+            except Exception:
+                pass
+            continue
+        if op == "delete":
+            try:
+                line.delete(tag)
+                gone = tag not in line.tagnames
+            except Exception:
+                gone = False
+            if not gone:
+                return                       # not the subject of C20: without the deletion the rest is not judged
+            continue
+        if vd is None:
+            continue                         # an edit that does not apply
+        verdict, dt, lab, mv, spec, v = vd
+        judged = case.get("mode") == "all" or i == last_judged or verdict == "unrep"
+        if op == "set":
+            refused = False
+            try:
+                if step["how"] == "set":
+                    line.set(tag, v)
+                else:
+                    setattr(line, tag, v)
+            except gfapy.Error as e:
+                refused = e.__class__.__name__
+            except Exception as e:
+                fail("foreign-exception", "assignment raised %s@%s" % (e.__class__.__name__, M.innermost_gfapy_frame(e)))
+                return
+            if verdict == "rep":
+                if refused:
+                    fail("representable-refused", "assignment raised %s" % refused)
+                    return
+                if judged and not judge_rep(fail, line, tag, dt, mv, ver):
+                    return
+            else:
+                if not refused:
+                    judge_unrep(fail, line, tag, dt, vlevel)
+                return
+        else:  # edit
+            try:
+                obj = line.get(tag)
+            except Exception:
+                return
+            if not isinstance(obj, list) or isinstance(obj, gfapy.ByteArray):
+                return
+            try:
+                apply_edit(obj, step)
+            except gfapy.Error:
+                return                       # an array class that refuses the edit itself: nothing is written
+            # is the edited object the value of the tag?  (at level 3 get validates: a refusal of an unrepresentable
+            # value there is a report; the sharing is then taken from the identity seen before the edit)
+            try:
+                now = line.get(tag)
+                if now is not obj or list(now) != list(mv) or [type(x) for x in now] != [type(x) for x in mv]:
+                    return
+            except gfapy.Error as e:
+                if verdict == "rep":
+                    fail("representable-refused", "get raised %s after the edit" % e.__class__.__name__)
+                    return
+            except Exception as e:
+                fail("foreign-exception", "get raised %s@%s after the edit" % (e.__class__.__name__, M.innermost_gfapy_frame(e)))
+                return
+            if verdict == "rep":
+                if judged and not judge_rep(fail, line, tag, dt, mv, ver):
+                    return
+            else:
+                judge_unrep(fail, line, tag, dt, vlevel)
+                return
+
+
+# ---------------------------------------------------------------------------------------------------- oracle
+def oracle(case):
+    if "seq" not in case:
+        return _o.oracle(case)
+    F = []
+    ver, base = _o.CTX[case.get("rec", 0) % len(_o.CTX)]
+    for vlevel in (0, 1, 2, 3):
+        run_seq(F, case, ver, base, vlevel)
+    seen = set(); out = []
+    for f in F:
+        s = signature(case, f)
+        if s not in seen:
+            seen.add(s); out.append(f)
+    return out
+
+
+def classify(case):
+    if "seq" not in case:
+        return _o.classify(case)
+    _, steps = plan(case)
+    vs = [vd[0] for _, vd in steps if vd is not None and vd[0] != "stop"]
+    if not vs:
+        return "skip"
+    return "unrep" if "unrep" in vs else "rep"
+
+
+def nontrivial(case):
+    return classify(case) != "skip"
+
+
+def tags(case):
+    if "seq" not in case:
+        return _o.tags(case)
+    _, steps = plan(case)
+    t = ["seq", "seq-" + classify(case), "mode=" + str(case.get("mode")), "init" if case.get("init") else "noinit"]
+    for _, vd in steps:
+        if vd is not None and vd[0] != "stop":
+            t.append("sit=" + vd[2].split(".")[-1].split("-")[0])
+    return sorted(set(t))
+
+
+def signature(case, failure):
+    return failure.split(": ")[0]
